@@ -27,12 +27,17 @@ def inTree (size bs x : Nat) : Bool :=
 
 /-- `store flavour kind size bs seed node` -/
 def opStore (args : List String) (impl : String) : Verdict :=
+  let (args, short) : List String × Option Nat := match args with
+    | [a, b, c, d, e, f, sh] => ([a, b, c, d, e, f], (sh.drop 5).toString.toNat?)
+    | _ => (args, none)
   match args with
   | [fl, kind, size, bs, seed, node] =>
     match flavour? fl, storeKind? kind, size.toNat?, bs.toNat?, seed.toNat?, node.toNat? with
     | some fl, some kind, some size, some bs, some seed, some node =>
       let tree : Tree := ⟨size, bs⟩
-      let backing := randBytes seed tree.outboardSize
+      let backing := match short with
+        | some l => (randBytes seed tree.outboardSize).take l
+        | none => randBytes seed tree.outboardSize
       let pair : HB × HB := (randBytes (seed + 1) 32, randBytes (seed + 2) 32)
       let s0 : Store HB := ⟨kind, zeros32, tree, backing⟩
       let l0 := Store.load hf fl s0 node
@@ -49,7 +54,7 @@ def opStore (args : List String) (impl : String) : Verdict :=
       -- the recursive traversal of the persisted nodes
       let idx := if isPostKind kind then Spec.postIndex size bs node else Spec.preIndex size bs node
       let sf : Option String :=
-        if !inTree size bs node then none else
+        if !inTree size bs node || short.isSome then none else
         match impl.splitOn " " with
         | [a, b, c, d, after] =>
           let isIo := kind == .preIo || kind == .postIo
@@ -149,6 +154,10 @@ def opMisc (args : List String) (impl : String) : Verdict :=
       { model := m, specFail := sf }
     | _, _, _ => bad "misc cnum"
   | ["bchunk", sz] => v s!"{sz} 64 L0:0:1"
+  | ["dbg", n] =>
+    match n.toNat? with
+    | some n => v s!"Leaf_\{_offset:_{n},_data:_{n % 5}_} ResponseIter_\{_.._} 111"
+    | none => bad "misc dbg"
   | ["defaults"] =>
     let e := hex (hashSubtree hf 0 [] true)
     v s!"{e} 11 {e} {e}"
